@@ -12,6 +12,10 @@
 //!      7 ser g t             serialized bytes
 //!      8 rt g t              sketch := deserialize(serialize(sketch))
 //!      9 deser g t bytes..   sketch := deserialize(bytes) -> [1] | ERR
+//!      30 merge g t          canonical state of u.to_sketch(Hll8), u = HllUnion::new(lg_k of the sketch); u.update(&sketch)
+//!      31 reser g t          [exact, modaux, has_aux]: serialize(deserialize(serialize(sk))) == serialize(sk) byte for byte /
+//!                            up to the order of the Hll4 exception list; has_aux = the image lists exceptions
+//!      32 qry g t            [estimate, lb1..3, ub1..3] bits (crate only: the model answers [])
 //!
 //! union cases: cfg = [lg_max_k, 1]; a table of 8 source sketches and one HllUnion
 //!      10 new i lg_k t       slot i := HllSketch::new
@@ -26,6 +30,7 @@
 //!      19 est t              [estimate, lb1..3, ub1..3] bits of union.to_sketch(t)
 //!      20 uinfo              [lg_config_k, lg_max_k, is_empty]
 //!      21 uest               [estimate, lb1..3, ub1..3] bits of the union itself
+//!      22 tosk_rt t          r = union.to_sketch(t); r' = deserialize(serialize(r)): [exact, modaux, has_aux] ++ state of r'
 use datasketches::common::NumStdDev;
 use datasketches::hll::{HllSketch, HllType, HllUnion};
 
@@ -85,6 +90,31 @@ fn canonical_image(mut b: Vec<u8>) -> Ob {
     b.iter().map(|x| *x as i128).collect()
 }
 
+fn is_hll4_image(b: &[u8]) -> bool {
+    b.len() >= 40 && (b[7] & 3) == 2 && ((b[7] >> 2) & 3) == 0
+}
+
+/// the image up to the order of the Hll4 exception list (the iteration order of the aux hash table)
+fn norm_image(b: &[u8]) -> Vec<u32> {
+    let mut out: Vec<u32> = Vec::new();
+    if is_hll4_image(b) {
+        let n = (40 + (1usize << (b[3] as usize - 1))).min(b.len());
+        out.extend(b[..n].iter().map(|x| *x as u32));
+        let mut aux: Vec<u32> = b[n..].chunks_exact(4).map(|c| u32::from_le_bytes(c.try_into().unwrap())).collect();
+        aux.sort_unstable();
+        out.extend(aux);
+    } else {
+        out.extend(b.iter().map(|x| *x as u32));
+    }
+    out
+}
+
+/// [exact, modaux, has_aux] for an image and the image of its deserialized copy
+fn reser_obs(img: &[u8], img2: &[u8]) -> Ob {
+    let has_aux = is_hll4_image(img) && u32::from_le_bytes(img[36..40].try_into().unwrap()) != 0;
+    vec![(img == img2) as i128, (norm_image(img) == norm_image(img2)) as i128, has_aux as i128]
+}
+
 fn est7(s: &HllSketch) -> Ob {
     vec![
         fbits(s.estimate()),
@@ -105,6 +135,8 @@ impl Fam {
                 self.slots[i] = Some(HllSketch::new(a[1] as u8, TYPES[a[2] as usize]));
                 vec![]
             }
+            // an op that names a slot never created (only a shrunk case does) is a no-op answering [-996]
+            11 | 12 | 13 | 14 | 17 if self.slots.get(i).map_or(true, |s| s.is_none()) => vec![-996],
             11 => {
                 self.slots[i].as_mut().unwrap().verif_update_with_coupon(a[1] as u32);
                 vec![]
@@ -153,6 +185,18 @@ impl Fam {
                     fbits(u.upper_bound(NumStdDev::Two)),
                     fbits(u.upper_bound(NumStdDev::Three)),
                 ]
+            }
+            22 => {
+                let r = self.union.as_ref().unwrap().to_sketch(TYPES[a[0] as usize]);
+                let img = r.serialize();
+                match HllSketch::deserialize(&img) {
+                    Ok(r2) => {
+                        let mut ob = reser_obs(&img, &r2.serialize());
+                        ob.extend(dump(&r2));
+                        ob
+                    }
+                    Err(_) => vec![ERR],
+                }
             }
             _ => vec![PANIC],
         }
@@ -243,6 +287,20 @@ impl Family for Fam {
                     Err(_) => vec![ERR],
                 }
             }
+            30 => {
+                let s = &self.sk[g * 3 + a[1] as usize];
+                let mut u = HllUnion::new(s.verif_state().lg_config_k as u8);
+                u.update(s);
+                dump(&u.to_sketch(HllType::Hll8))
+            }
+            31 => {
+                let img = self.sk[g * 3 + a[1] as usize].serialize();
+                match HllSketch::deserialize(&img) {
+                    Ok(s2) => reser_obs(&img, &s2.serialize()),
+                    Err(_) => vec![ERR],
+                }
+            }
+            32 => est7(&self.sk[g * 3 + a[1] as usize]),
             _ => vec![PANIC],
         }
     }
